@@ -35,6 +35,8 @@ type Oblig struct {
 	Trace    []string
 	Stage    string // proof | R1
 	hasQ     bool
+	raw      string // pre-rendered SMT text (float lemmas)
+	timeout  int    // own time limit in ms (0 = the tier's)
 }
 
 type Frame struct {
@@ -78,7 +80,9 @@ type Exec struct {
 	iterMap    map[ssa.Value]Val
 	alloc0     string
 	canaryDone bool
-	alias      map[string][]string // backing-array term -> arrays it may denote (append results)
+	arrOrigin  map[string]originInfo // backing arrays created by slicing an array value
+	alias      map[string][]string   // backing-array term -> arrays it may denote (append results)
+	matContext string
 	probeVar   string
 	idxLog     *[]IdxT           // collector of (index, sequence) pairs read while evaluating a quantifier body
 	probe      *[]SeqRef         // collector of sequences indexed by a probe variable (see seqsOf)
@@ -118,7 +122,7 @@ func (x *Exec) note(s string) { x.notes[s] = true }
 func newExec(eng *Engine, fn *ssa.Function, con *Contract, key string, bound int) *Exec {
 	return &Exec{eng: eng, decls: newDecls(), fn: fn, con: con, key: key, bound: bound, tags: map[string]int{}, strs: map[string]int{},
 		keyTypes: map[string]types.Type{}, arrStorage: map[string]bool{}, labels: map[ssa.Instruction]string{}, loops: map[*ssa.Function]*LoopInfo{},
-		notes: map[string]bool{}, alias: map[string][]string{}, iterMap: map[ssa.Value]Val{}, proveCache: map[string]bool{}, errGlobals: map[string]bool{}, noWrapRec: map[string]bool{}}
+		notes: map[string]bool{}, alias: map[string][]string{}, arrOrigin: map[string]originInfo{}, iterMap: map[ssa.Value]Val{}, proveCache: map[string]bool{}, errGlobals: map[string]bool{}, noWrapRec: map[string]bool{}}
 }
 
 // ---------- labels ----------
